@@ -48,6 +48,15 @@ func c08Progs() []c08Prog {
 		{"HALT at FFFF", 0xFFFE, []Poke{{0xFFFE, []uint8{0x00, 0x76}}, {0x0000, []uint8{0x3C, 0x76}}, hINT, hNMI}, []uint16{0xFFFE, 0xFFFF, 0x0000, 0x0001}, false},
 		{"HALT at 0000 reached by a jump", 0x0100, []Poke{{0x0100, []uint8{0xC3, 0x00, 0x00}}, {0x0000, []uint8{0x76, 0x3C}}, hINT, hNMI}, []uint16{0x0100, 0x0000, 0x0001, 0xFFFF}, true},
 		{"HALT;HALT", 0x0100, []Poke{{0x0100, []uint8{0x76, 0x76}}, hINT, hNMI}, []uint16{0x0100, 0x0101}, false},
+		// idioms that a loop in Run might be tempted to special-case
+		{"DJNZ $ delay loop (B=5)", 0x0100, []Poke{{0x0100, []uint8{0x06, 0x05, 0x10, 0xFE, 0x76}}, hINT, hNMI}, []uint16{0x0102, 0x0104}, true},
+		{"DJNZ $ delay loop (B=0: 256 passes)", 0x0100, []Poke{{0x0100, []uint8{0x06, 0x00, 0x10, 0xFE, 0x76}}, hINT, hNMI}, []uint16{0x0102, 0x0104}, false},
+		{"DEC A; JR NZ,$-1 delay loop", 0x0100, []Poke{{0x0100, []uint8{0x3E, 0x04, 0x3D, 0x20, 0xFD, 0x76}}, hINT, hNMI}, []uint16{0x0102, 0x0105}, true},
+		{"LDIR of 40 bytes", 0x0100, []Poke{{0x0100, []uint8{0x01, 0x28, 0x00, 0x21, 0x00, 0x60, 0x11, 0x00, 0x61, 0xED, 0xB0, 0x76}}, hINT, hNMI}, []uint16{0x0109, 0x010B}, true},
+		{"LDIR of 20 bytes across FFFF", 0x0100, []Poke{{0x0100, []uint8{0x01, 0x14, 0x00, 0x21, 0xF8, 0xFF, 0x11, 0x00, 0x61, 0xED, 0xB0, 0x76}}, hINT, hNMI}, []uint16{0x0109, 0x010B}, false},
+		{"LDDR of 20 bytes, overlapping", 0x0100, []Poke{{0x0100, []uint8{0x01, 0x14, 0x00, 0x21, 0x20, 0x60, 0x11, 0x24, 0x60, 0xED, 0xB8, 0x76}}, hINT, hNMI}, []uint16{0x0109, 0x010B}, true},
+		{"CPIR over 30 bytes, no hit", 0x0100, []Poke{{0x0100, []uint8{0x01, 0x1E, 0x00, 0x21, 0x00, 0x70, 0x3E, 0x00, 0xED, 0xB1, 0x76}}, {0x7000, []uint8{1, 2, 3, 4, 5, 6, 7, 8, 9, 10, 11, 12, 13, 14, 15, 16, 17, 18, 19, 20, 21, 22, 23, 24, 25, 26, 27, 28, 29, 30}}, hINT, hNMI}, []uint16{0x0108, 0x010A}, false},
+		{"OTIR of 20 bytes; INIR of 20 bytes", 0x0100, []Poke{{0x0100, []uint8{0x01, 0x10, 0x14, 0x21, 0x00, 0x60, 0xED, 0xB3, 0x06, 0x14, 0xED, 0xB2, 0x76}}, hINT, hNMI}, []uint16{0x0106, 0x010A, 0x010C}, true},
 	}
 }
 
@@ -426,7 +435,7 @@ func checkC08(c *Ctx) {
 			}
 		}
 	}
-	c.Rule = fmt.Sprintf("%d terminating programs (straight line; HALT first; multi-byte instruction with a breakpoint inside; code wrapping FFFF->0000 into a HALT; DJNZ loop with a breakpoint on its head; LDIR with a breakpoint on itself; CALL/RET; EI + IN/OUT with handlers; DI;HALT; prefix-only tail; JP; HALT at FFFF; HALT at 0000; HALT;HALT) x all subsets of each program's 2..5 candidate breakpoint addresses + nil map + stale halted indication (%d configurations) x history Run;Run;Run;Run x {no request; NMI, IM1, a mode-0 request whose instruction is HALT, mode-0 RST 38, mode-0 INC A raised from inside the memory/port callback at every access index j of the history, or already pending when the first Run is entered}; breakpoint maps edited in place between two Runs (one address swapped for another, the map object and its size unchanged; the map replaced by an equal new object). Contexts: Background, a WithCancel context nobody cancels, a WithValue child. Breakpoint edits from inside a device callback at every access index 0..39 (install the map when the field was nil on entry; set the field to nil; add addresses to an empty map) x 3 address sets. Oracle: Step-driven twin with the stop rule applied outside. Non-trivial = histories with at least one breakpoint hit or callback-raised request (counted).", len(progs), len(cases))
+	c.Rule = fmt.Sprintf("%d terminating programs (straight line; HALT first; multi-byte instruction with a breakpoint inside; code wrapping FFFF->0000 into a HALT; DJNZ loop with a breakpoint on its head; LDIR with a breakpoint on itself; CALL/RET; EI + IN/OUT with handlers; DI;HALT; prefix-only tail; JP; HALT at FFFF; HALT at 0000; HALT;HALT) x all subsets of each program's 2..5 candidate breakpoint addresses + nil map + stale halted indication (%d configurations) x history Run;Run;Run;Run x {no request; NMI, IM1, a mode-0 request whose instruction is HALT, mode-0 RST 38, mode-0 INC A raised from inside the memory/port callback at every access index j of the history, or already pending when the first Run is entered}; breakpoint maps edited in place between two Runs (one address swapped for another, the map object and its size unchanged; the map replaced by an equal new object). Contexts: Background, a WithCancel context nobody cancels, a WithValue child. Breakpoint edits from inside a device callback at every access index 0..39 (install the map when the field was nil on entry; set the field to nil; add addresses to an empty map) x 3 address sets. Concrete-type pass: every program by Run on the package's own DumbMemory (len 65536 and 65536+256) / MapMemory and DumbIO handed over unwrapped, against a Step-driven twin on identical devices behind opaque wrappers, with nil / never-reached breakpoints, two Runs: same error, States (incl. R), HALT and device contents. Oracle: Step-driven twin with the stop rule applied outside. Non-trivial = histories with at least one breakpoint hit or callback-raised request (counted).", len(progs), len(cases))
 	c.Bound = "4 Run calls; <=1 callback-raised request at every access index (thorough: <=2, every pair of indices)"
 	bg := obsBackground(c)
 	type sidePair struct{ a, b *c08Side }
@@ -525,6 +534,7 @@ func checkC08(c *Ctx) {
 		c.Nontrivial += nontriv[i]
 		c.Transitions += steps[i]
 	}
+	c08Concrete(c, progs)
 	c.States = c.Evaluations * 4
 	c.Traces = c.Evaluations
 	c.Exhaustive = true
@@ -544,4 +554,117 @@ func replayC08(c *Ctx, raw []byte) []string {
 	bg := obs.NewBackground(cs.Salt)
 	d, _ := c08One(newC08Side(bg), newC08Side(bg), &progs[cs.Prog], &cs)
 	return cloneStrings(d)
+}
+
+// c08Concrete: Run on the package's own device types, handed over unwrapped, against a Step-driven twin
+// whose identical devices sit behind opaque wrappers. A Run-only or type-only shortcut (a bulk copy for
+// LDIR on a DumbMemory, a fast-forwarded delay loop) must leave exactly what the Steps leave.
+func c08Concrete(c *Ctx, progs []c08Prog) {
+	bg := obsBackground(c)
+	var n int64
+	for pi := range progs {
+		p := &progs[pi]
+		for kind := 0; kind < 3; kind++ {
+			for bps := 0; bps < 2; bps++ {
+				mk := func() (z80.Memory, func() []uint8, map[uint16]uint8) {
+					if kind == 2 {
+						mm := z80.MapMemory{}
+						for _, pk := range p.code {
+							mm.Put(pk.Addr, pk.Data...)
+						}
+						return mm, nil, mm
+					}
+					l := 65536
+					if kind == 1 {
+						l += 256
+					}
+					dm := make(z80.DumbMemory, l)
+					copy(dm, bg[:])
+					for _, pk := range p.code {
+						for i, b := range pk.Data {
+							dm[int(pk.Addr+uint16(i))] = b
+						}
+					}
+					return dm, func() []uint8 { return dm }, nil
+				}
+				memA, bytesA, mapA := mk()
+				memB, bytesB, mapB := mk()
+				ioA, ioB := make(z80.DumbIO, 256), make(z80.DumbIO, 256)
+				for i := range ioA {
+					ioA[i], ioB[i] = uint8(i*5+1), uint8(i*5+1)
+				}
+				wrapB := &opaqueMem{m: memB, limit: 1 << 30}
+				a := z80.CPU{Memory: memA, IO: ioA}
+				b := z80.CPU{Memory: wrapB, IO: &opaqueIO{ioB}}
+				base := baseVector(0)
+				st := base.S
+				st.PC, st.SP, st.IM = p.pc, 0xF000, 1
+				st.IFF1, st.IFF2 = p.iff, p.iff
+				toCPU(&st, &a)
+				toCPU(&st, &b)
+				if bps == 1 {
+					a.BreakPoints = map[uint16]struct{}{0x4321: {}}
+					b.BreakPoints = map[uint16]struct{}{0x4321: {}}
+				}
+				name := []string{"DumbMemory len 65536", "DumbMemory len 65536+256", "MapMemory"}[kind]
+				for run := 0; run < 2; run++ {
+					var errT, errR error
+					var fin bool
+					var steps int
+					var panT, panR interface{}
+					func() {
+						defer func() { panT = recover() }()
+						errT, steps, fin = twinRun(&b, 5000)
+					}()
+					if panT != nil || !fin {
+						break // the twin is the reference; a program that does not end on these devices is not judged
+					}
+					done := c.WatchWall(func() string { return fmt.Sprintf("Run of program %q on %s", p.name, name) })
+					func() {
+						defer func() { panR = recover() }()
+						errR = a.Run(bgCtx)
+					}()
+					done()
+					n++
+					var d []string
+					if panR != nil {
+						d = append(d, fmt.Sprintf("Run panicked: %v", panR))
+					} else {
+						if errR != errT {
+							d = append(d, fmt.Sprintf("Run #%d returned %v, the Step-driven twin stops with %v after %d Steps", run+1, errR, errT, steps))
+						}
+						if a.States != b.States || a.HALT != b.HALT {
+							x, y := fromCPU(&a), fromCPU(&b)
+							d = append(d, fmt.Sprintf("after Run #%d: Run %v ; %d Steps %v", run+1, stateMap(&x), steps, stateMap(&y)))
+						}
+						if bytesA != nil {
+							if i := firstDiff(bytesA(), bytesB()); i >= 0 {
+								d = append(d, fmt.Sprintf("memory differs at index %#x after Run #%d: Run %02X, Steps %02X", i, run+1, bytesA()[i], bytesB()[i]))
+							}
+						} else {
+							if len(mapA) != len(mapB) {
+								d = append(d, fmt.Sprintf("MapMemory sizes differ after Run #%d: %d vs %d entries", run+1, len(mapA), len(mapB)))
+							}
+							for k, v := range mapB {
+								if w, ok := mapA[k]; !ok || w != v {
+									d = append(d, fmt.Sprintf("MapMemory[%04X] after Run #%d: Run %02X (present %v), Steps %02X", k, run+1, w, ok, v))
+									break
+								}
+							}
+						}
+						if i := firstDiff(ioA, ioB); i >= 0 {
+							d = append(d, fmt.Sprintf("DumbIO differs at port %02X after Run #%d", i, run+1))
+						}
+					}
+					if len(d) > 0 {
+						c.Report("c08/concrete:"+p.name, int64(pi*10+kind), "", map[string]interface{}{"program": p.name, "memory": name, "breakpoints_map": bps == 1}, append([]string{fmt.Sprintf("program %q on %s + DumbIO handed to the CPU unwrapped, breakpoint map present: %v", p.name, name, bps == 1)}, d...))
+						break
+					}
+				}
+			}
+		}
+	}
+	c.Evaluations += n
+	c.Nontrivial += n
+	c.Set("concrete_type_runs", n)
 }
